@@ -6,10 +6,10 @@ def tname(v):
     return type(v).__qualname__
 
 
-def run_entries(mod, entries, results=None, cap=2000):
+def run_entries(mod, entries, results=None, cap=2000, slots=None, keep=False):
     ns = mod.__dict__
     Err = ns["Err"]
-    slots = {}
+    slots = {} if slots is None else slots
     results = [] if results is None else results
 
     def step(s):
@@ -65,6 +65,7 @@ def run_entries(mod, entries, results=None, cap=2000):
             except Exception as ex:  # noqa
                 results.append((op + "-exc", type(ex).__name__))
             st[1] = False
-    slots.clear()
-    gc.collect()
+    if not keep:
+        slots.clear()
+        gc.collect()
     return results
